@@ -998,4 +998,114 @@ example :
 
 end SharedUuid
 
+section LocalInTime
+
+/-! ## the accumulation is local in time: cutting a history, the last frame's order, the first frame, untracked labels
+
+Added after the audits: structural laws of `CLEAR.__init__` that hold for every history and that any hidden state
+carried from frame to frame (beyond "the previous frame") or any dependence on the position of a result in the
+current frame would break. -/
+
+theorem steps_append (cfg : Cfg) (f0 : List Res) (pre : List (List Res)) (f : List Res) (post : List (List Res)) :
+    steps cfg f0 (pre ++ f :: post) = steps cfg f0 (pre ++ [f]) ++ steps cfg f post := by
+  induction pre generalizing f0 with
+  | nil => simp [steps]
+  | cons p pre ih => simp only [List.cons_append, steps, ih]
+
+/-- **cutting a history at any frame**: the totals of the whole history are the totals of the part up to and including the
+cut frame plus the totals of the part that starts with the cut frame as its initial "previous" frame — the accumulation
+carries nothing from frame to frame except the previous frame itself -/
+theorem history_split (cfg : Cfg) (pre : List (List Res)) (f : List Res) (post : List (List Res)) :
+    clear cfg (pre ++ f :: post) = (clear cfg (pre ++ [f])).add (clear cfg (f :: post)) := by
+  cases pre with
+  | nil => simp [clear, clearLoop]
+  | cons f0 pre =>
+    rw [List.cons_append, List.cons_append, clear_cons, clear_cons, clear_cons, steps_append, accSum_append]
+
+/-- the number of evaluated results splits the same way -/
+theorem predictNum_split (pre : List (List Res)) (f : List Res) (post : List (List Res)) :
+    predictNum (pre ++ f :: post) = predictNum (pre ++ [f]) + predictNum (f :: post) := by
+  have hf : ∀ (l : List (List Res)) (n : Nat), l.foldl (fun n f => n + f.length) n = n + l.foldl (fun n f => n + f.length) 0 := by
+    intro l
+    induction l with
+    | nil => simp
+    | cons x l ih => intro n; simp only [List.foldl_cons]; rw [ih (n + x.length), ih (0 + x.length)]; omega
+  cases pre with
+  | nil => simp [predictNum]
+  | cons p pre =>
+    simp only [predictNum, List.cons_append, List.drop_succ_cons, List.drop_zero, List.foldl_append, List.foldl_cons,
+      List.foldl_nil]
+    rw [hf post]
+
+/-- MOTA's numerator of a history is the sum of the numerators of the two parts of any cut -/
+theorem mota_numerator_split (cfg : Cfg) (pre : List (List Res)) (f : List Res) (post : List (List Res)) :
+    let n := fun (a : Acc) => a.tp - (a.fp : Rat) - (a.sw : Rat)
+    n (clear cfg (pre ++ f :: post)) = n (clear cfg (pre ++ [f])) + n (clear cfg (f :: post)) := by
+  intro n
+  rw [history_split]
+  simp only [n, Acc.add_tp, Acc.add_fp, Acc.add_sw, Nat.cast_add]
+  grind
+
+/-- a frame's increment does not depend on the order of the CURRENT results (the previous frame's order can
+matter when two previous TPs qualify: `SharedUuid`) -/
+theorem frameStep_perm (cfg : Cfg) (prev : List Res) {cur cur' : List Res} (h : cur.Perm cur') :
+    frameStep cfg prev cur = frameStep cfg prev cur' := by
+  rw [frameStep_eq, frameStep_eq]
+  induction h with
+  | nil => rfl
+  | cons x _ ih => simp [ih]
+  | swap x y l =>
+    simp only [List.map_cons, accSum_cons, ← Acc.add_assoc]
+    congr 1
+    apply Acc.ext' <;> simp [Rat.add_comm, Nat.add_comm]
+  | trans _ _ ih1 ih2 => exact ih1.trans ih2
+
+/-- **the order of the results inside the last frame of a history changes nothing** of `CLEAR.results` -/
+theorem last_frame_order_irrelevant (cfg : Cfg) (g : Nat) (pre : List (List Res)) (prev : List Res)
+    {cur cur' : List Res} (h : cur.Perm cur') :
+    evalClear cfg g (pre ++ [prev, cur]) = evalClear cfg g (pre ++ [prev, cur']) := by
+  have hc : clear cfg (pre ++ [prev, cur]) = clear cfg (pre ++ [prev, cur']) := by
+    rw [history_split cfg pre prev [cur], history_split cfg pre prev [cur']]
+    simp [clear, clearLoop, frameStep_perm cfg prev h]
+  have hp : predictNum (pre ++ [prev, cur]) = predictNum (pre ++ [prev, cur']) := by
+    rw [predictNum_split pre prev [cur], predictNum_split pre prev [cur']]
+    simp [predictNum, h.length_eq]
+  unfold evalClear
+  rw [hc, hp]
+
+/-- a history that consists of the initial "previous" frame alone scores nothing: no result is evaluated, MOTP is
+undefined, MOTA is 0 (undefined without ground truth) -/
+theorem initial_frame_alone (cfg : Cfg) (g : Nat) (f0 : List Res) :
+    evalClear cfg g [f0] = ⟨0, g, Acc.zero, if g = 0 then none else some 0, none⟩ := by
+  unfold evalClear
+  have hc : clear cfg [f0] = Acc.zero := rfl
+  rw [hc]
+  by_cases hg : g = 0
+  · simp [predictNum, mota, motp, hg]
+  · simp [predictNum, mota, motp, hg, Acc.zero]
+
+/-- results of the current frame whose key label is not a target label of the instance add nothing: the frame's
+increment is that of the current frame restricted to the keyed results (the previous frame is scanned as given) -/
+theorem unkeyed_current_results_add_nothing (cfg : Cfg) (prev cur : List Res) :
+    frameStep cfg prev cur =
+      frameStep cfg prev (cur.filter (fun c => (labelThreshold cfg (keyLabel c)).isSome)) := by
+  rw [frameStep_eq, frameStep_eq]
+  induction cur with
+  | nil => rfl
+  | cons c cur ih =>
+    cases hk : labelThreshold cfg (keyLabel c) with
+    | none =>
+      have hz : resStep cfg prev c = Acc.zero := by unfold resStep; rw [hk]
+      simp [hk, hz, ih]
+    | some t => simp [hk, ih]
+
+/-- non-vacuity / concrete instance: a cut in the middle of a 4-frame history with a switch on either side -/
+example :
+    let a := rEx 1 1 (1/2); let b := rEx 2 2 (1/4); let a' := rEx 3 1 (1/2); let b' := rEx 4 2 (1/4)
+    clear cfgEx [[], [a, b], [a', b], [a', b']] = ⟨6, 0, 2, 1/2 + 1/4 + 1/2 + 1/4 + 1/2 + 1/4⟩ ∧
+    clear cfgEx [[], [a, b], [a', b]] = ⟨4, 0, 1, 1/2 + 1/4 + 1/2 + 1/4⟩ ∧
+    clear cfgEx [[a', b], [a', b']] = ⟨2, 0, 1, 1/2 + 1/4⟩ := by decide +kernel
+
+end LocalInTime
+
 end PEval.C05
